@@ -181,10 +181,14 @@ def judge(ctx, case, obs):
         # rejected although both states were meant to exist: legitimate only if the state really is not (uniquely)
         # in the remove-set graph of that vm and worker; and nothing may have happened
         r = rejected[-1]
-        hits = state_node(r["graph"], r["node"] or "install", r["obj"])
-        ctx.count("oracle.rejected-state-absent" if len(hits) != 1 else "oracle.rejected-state-present")
-        if len(hits) == 1:
-            bad("known-state-rejected", f"update rejected state {r['node']!r} of {r['obj']} which node {hits} of the graph produces")
+        gvm = r["graph"]["vm"]        # the vm whose iteration built this graph (not the name the call was given)
+        frm, to = states_of(case, gvm)
+        hits_to, hits_from = state_node(r["graph"], to, gvm), state_node(r["graph"], frm, gvm)
+        ok = len(hits_to) != 1 or len(hits_from) != 1
+        ctx.count("oracle.rejected-state-absent" if ok else "oracle.rejected-state-present")
+        if not ok:
+            bad("known-state-rejected", f"update rejected ({obs['msg'][:80]}) although {gvm}'s to_state {to} and "
+                f"from_state {frm} are produced by the unique nodes {hits_to}, {hits_from} of its graph on {r['graph']['worker']}")
         if starts or [d for d in doors if d["do"] == "unset"]:
             bad("unknown-state-side-effects", f"update was rejected after {len(starts)} tests")
         return
@@ -194,6 +198,13 @@ def judge(ctx, case, obs):
             return
         bad("update-raised", f"update raised {val}: {obs['msg']}")
         return
+    # every selected vm is handled on every selected worker (unless the parser has nothing for that worker)
+    empty = {(e["vm"], e["worker"]) for e in obs["events"] if e["k"] == "pot" and e["exc"]}
+    have = {(g["vm"], g["worker"]) for g in graphs}
+    for vm in sel:
+        for w in case["nets"]:
+            if (vm, w) not in have and (vm, w) not in empty:
+                bad("worker-skipped", f"no remove-set graph was flagged for {vm} on {w}")
     # expected executions and removals from the parsed graphs (plain graph search)
     want_exec, want_unset = set(), set()
     for g in graphs:
